@@ -730,7 +730,7 @@ RecoverDone ==
   /\ rcont' = RecoveredT(Files, tornrec)
   /\ hist' = Append(hist, [a |-> "Recover", exp |-> ExpAll(RecoveredT(Files, tornrec)),
                            must |-> ExpAll([s \in Series |-> Lower(s)]), may |-> ExpAll([s \in Series |-> Upper(s)]),
-                           trace |-> trace])
+                           trace |-> trace, ckf |-> SetToSeq(ckf)])
   /\ UNCHANGED <<dbvars, nops, fvars, mvars, prog, nstep, ackd, nack, infl, ncrash, ckf, tornrec, trace>>
 
 \* the workload ends without a crash: the whole predicted hook trace is handed to the harness
@@ -738,7 +738,7 @@ CEnd ==
   /\ pc = "idle" /\ ncrash = 0
   /\ (IF Script = <<>> THEN nops = MaxOps ELSE nops = Len(Script))
   /\ pc' = "done"
-  /\ hist' = Append(hist, [a |-> "End", trace |-> trace])
+  /\ hist' = Append(hist, [a |-> "End", trace |-> trace, ckf |-> SetToSeq(ckf)])
   /\ UNCHANGED <<dbvars, nops, fvars, mvars, prog, nstep, gvars, trace>>
 
 CDo(k) ==
